@@ -206,10 +206,36 @@ def r14_7(prog, rep):
         rep.check(text_hit, "R14.7", f"isliteral->{c.name}", f.loc, "a text member is matched on the decoded text of every carrier before the loader may re-type it", "a raw str input that is a member is returned as is, but the same text in a bytes / bytearray / memoryview carrier is only matched after serdes.load re-typed it: unmarshal(Literal['1'], '1') == '1' while unmarshal(Literal['1'], b'1') is rejected", detail="text-members")
 
 
+def parse_function(prog):
+    """(entry, parser, text): `strload` and the function that actually tries the JSON decoder and the literal parser -- strload
+    itself, or the one package function it calls that does (a memoised private helper keyed by the decoded text).  `text` is
+    the term the parser works on, seen from the parser: decode(<its parameter>) or the parameter itself when the entry
+    decodes before it calls."""
+    import ast as _ast
+
+    entry = prog.function(f"{C.SERDES}.strload")
+
+    def parses(fn):
+        return any(isinstance(n, _ast.Call) and prog.resolve_expr_name(fn.module, n.func) == "ast.literal_eval" for n in _ast.walk(fn.node))
+
+    if parses(entry):
+        return entry, entry, None
+    cands = []
+    for n in _ast.walk(entry.node):
+        if isinstance(n, _ast.Call):
+            q = prog.resolve_expr_name(entry.module, n.func)
+            g = prog.functions.get(q or "")
+            if g is not None and g is not entry and g.module is entry.module and parses(g) and g not in cands:
+                cands.append(g)
+    if len(cands) != 1:
+        raise C.AnalysisError("anchor: the function that parses text for serdes.strload not found")
+    return entry, cands[0], None
+
+
 def r14_8(prog, rep):
     """strload returns text that is neither JSON nor a literal unchanged, without raising: every exception class the
     literal parser can raise on *text* is suppressed at its call (long runs of operators exhaust the parser's stack)."""
-    f = prog.function(f"{C.SERDES}.strload")
+    entry, f, _ = parse_function(prog)
     need = oracle.RAISE_SETS["ast.literal_eval"]
     found = False
     missing = set(need)
@@ -223,6 +249,34 @@ def r14_8(prog, rep):
     if not found:
         rep.undecided("R14.8", f.qualname, f.loc, "no guarded ast.literal_eval attempt found in strload")
         return
+    if missing and f is not entry:
+        # what the parser lets through may be caught by the entry around *every* call of the parser (directly or through
+        # its un-memoised __wrapped__)
+        calls_parser = lambda x: (x[0] == "call" and (T.refname(x[1]) == f.qualname or (x[1][0] == "attr" and x[1][2] == "__wrapped__" and T.refname(x[1][1]) == f.qualname)))  # noqa: E731
+        outer = None
+        for p in P.paths_of(prog, entry):
+            evs = p.events
+            for i, e in enumerate(evs):
+                if e[0] == "attempt" and T.contains(e[1], calls_parser) and i + 1 < len(evs) and evs[i + 1][0] in ("suppressed", "caught"):
+                    names = P.handler_names(evs[i + 1]) or []
+                    here = {n for n in missing if oracle.exc_covered(n, names)}
+                    outer = here if outer is None else (outer & here)
+        unguarded = [p for p in P.paths_of(prog, entry) if p.exit[0] == "return" and T.contains(p.exit[1], calls_parser) and not P.abandoned(p) and False]
+        del unguarded
+        if outer:
+            # every call site of the parser in the entry must sit in such a handler: look for a call outside any try
+            import ast as _ast
+
+            bare = False
+            for n in _ast.walk(entry.node):
+                if isinstance(n, _ast.Call):
+                    q = prog.resolve_expr_name(entry.module, n.func.value if isinstance(n.func, _ast.Attribute) and n.func.attr == "__wrapped__" else n.func)
+                    if q == f.qualname:
+                        inside = any(isinstance(t0, (_ast.Try, _ast.With)) and any(n is m for m in _ast.walk(t0)) for t0 in _ast.walk(entry.node))
+                        if not inside:
+                            bare = True
+            if not bare:
+                missing -= outer
     rep.check(not missing, "R14.8", f.qualname, f.loc, f"the literal fallback is guarded against {sorted(n.rsplit('.', 1)[1] for n in need)}", f"ast.literal_eval can raise {sorted(n.rsplit('.', 1)[1] for n in missing)} on ordinary text (a long path 'a/a/a/…', a slug with thousands of hyphens) and strload does not suppress it: load() raises instead of returning the text unchanged")
 
 
@@ -301,6 +355,11 @@ def r14_3(prog, rep):
                         # ifexp guard in the same expression
                         why = f"argument {T.show(a)[:40]} may be {bad} (unhashable) when it reaches the memoised {g.name}"
                     rep.check(ok, "R14.3", caller.qualname, caller.loc, f"call of memoised {g.name}: {why}", f"{why}: TypeError('unhashable type') for that carrier", detail=g.name)
+    # a *public* memoised function is called by users with every carrier it declares: nothing can decode for them first,
+    # and what it returns is the cache entry itself
+    for q, (g, pn, bad) in sorted(risky.items()):
+        if not g.name.startswith("_") and g.cls is None:
+            rep.violated("R14.3", q, g.loc, f"public and memoised on its raw argument `{pn}`, which it declares may be {bad}: {g.name}(bytearray(b'[1]')) raises TypeError (unhashable) where the str / bytes carriers work, {g.name}(1.0) is served the entry of {g.name}(True), and the container it returns is the cached object itself (a caller who mutates it changes every later answer for that text)", detail="public-entry")
     if not risky:
         rep.held("R14.3", f"{C.SERDES}", "", "no memoised function declares an unhashable carrier parameter", nontrivial=False)
     rep.count("memoised_functions", len(memo))
@@ -308,9 +367,15 @@ def r14_3(prog, rep):
 
 
 def r14_4(prog, rep):
-    f = prog.function(f"{C.SERDES}.strload")
+    entry, f, _ = parse_function(prog)
     val = ("param", f.params[0])
     dec = ("call", ("ref", f"{C.SERDES}.decode"), (val,), ())
+    if f is not entry:
+        # the entry decodes and hands the text to the parser: the parser's own parameter is the decoded text
+        ev = ("param", entry.params[0])
+        decoded_first = any(T.contains(tm, lambda x: x[0] == "call" and T.refname(x[1]) == f.qualname and x[2][:1] == (("call", ("ref", f"{C.SERDES}.decode"), (ev,), ()),)) for p in P.paths_of(prog, entry) for tm in p.all_terms())
+        rep.check(decoded_first, "R14.4", entry.qualname, entry.loc, "the entry hands the decoded text to the parser", "strload does not pass decode(val) to the function that parses", detail="entry-decodes")
+        dec = val
     ps = P.paths_of(prog, f)
     json_first = lit_second = final = False
     sup1 = sup2 = None
@@ -319,7 +384,7 @@ def r14_4(prog, rep):
             continue
         r = p.exit[1]
         suppressed = P.abandoned(p)
-        if r[0] == "call" and (T.refname(r[1]) or "").endswith(".loads") and r[2] == (val,) and not suppressed:
+        if r[0] == "call" and (T.refname(r[1]) or "").endswith(".loads") and r[2] in ((val,), (dec,)) and not suppressed:
             json_first = True
         if T.is_call_to(r, "ast.literal_eval") and len(suppressed) == 1:
             lit_second = r[2] == (dec,)
